@@ -569,6 +569,10 @@ def rule_J5(ctx) -> None:
         ("sub-message present but empty", "message", {A(META, "wraps"): None}, {A(VALUE, "_serialized_on_wire"): True, VALUE: False}),
         ("optional scalar set to its default", "int32", {A(META, "optional"): True}, {VALUE: False}),
         ("optional string set to ''", "string", {A(META, "optional"): True}, {VALUE: False}),
+        # a lazily created child that was filled in place (list.append / dict update bypass __setattr__): the wire carries it
+        # because it differs from the default, so JSON must too
+        ("sub-message with content whose presence flag was never set", "message", {A(META, "wraps"): None, A(META, "optional"): False, A(META, "group"): None},
+         {A(VALUE, "_serialized_on_wire"): False, VALUE: True, CALL(N("bool"), VALUE): True}),
         # optional message-typed members: the wire carries them (dump emits every optional that is not None), so JSON must too
         ("optional sub-message set to an empty message", "message", {A(META, "wraps"): None, A(META, "optional"): True, A(META, "group"): None},
          {A(VALUE, "_serialized_on_wire"): False, VALUE: False}),
